@@ -97,67 +97,58 @@ def rule_len(ctx) -> None:
 
 
 def rule_export(ctx) -> None:
+    """BinaryImage.export evaluated on models of image trees (children are model objects whose export() gives their bytes; the pattern
+    gives 'P' bytes, align_block pads with 'A'): the result must be pattern fill, own binary at 0, every child at its offset in
+    child order, aligned at the end - whatever views, temporaries or loop shape the code uses."""
     chk = ctx.chk
     fn = ctx.own(IMG, "BinaryImage", "export")
-    body = A.body_of(fn.node)
-    # early return of the raw binary only when it is the whole image
-    early = [s for s in body if isinstance(s, ast.If) and any(isinstance(x, ast.Return) and norm(x.value) == "self.binary" for x in s.body)]
-    if early:
-        t = norm(early[0].test)
-        ok = "len(self) == len(self.binary)" in t and "len(self.sub_images) == 0" in t and "self.binary" in t.split(" and ")[0] and " or " not in t
-        chk.decide(ok, "C16.export.shortcut", fn.qual, "raw binary is returned only when it already is the whole image (same length, no children)", t, "self.binary and len(self) == len(self.binary) and len(self.sub_images) == 0", A.loc(IMG, early[0]))
-    # buffer has len(self) bytes, filled with the pattern
-    bufs = [s for s in A.walk_no_nested(fn.node) if isinstance(s, ast.Assign) and isinstance(s.value, ast.Call) and A.call_name(s.value) == "bytearray"]
-    if not bufs:
-        raise AnalysisError("C16.export: buffer creation not found")
-    var = norm(bufs[0].targets[0])
-    for b in bufs:
-        a = norm(b.value.args[0]) if b.value.args else ""
-        chk.decide(a in ("len(self)", "self.pattern.get_block(len(self))"), "C16.export.buffer", f"{fn.qual} `{norm(b)[:50]}`", "buffer of len(self) bytes (pattern filled)", norm(b), "bytearray(len(self)) / bytearray(self.pattern.get_block(len(self)))", A.loc(IMG, b))
-    pat_if = [s for s in body if isinstance(s, ast.If) and norm(s.test) == "self.pattern"]
-    chk.decide(bool(pat_if) and any(isinstance(x, ast.Assign) and "get_block" in norm(x.value) for x in pat_if[0].body), "C16.export.buffer", fn.qual + " pattern", "gaps hold the fill pattern", "pattern branch missing", "", A.loc(IMG, fn.node))
-    # own binary at offset 0
-    own = [s for s in A.walk_no_nested(fn.node) if isinstance(s, ast.Assign) and isinstance(s.targets[0], ast.Subscript) and norm(s.targets[0].value) == var]
-    ok = False
-    for s in own:
-        sl = s.targets[0].slice
-        if isinstance(sl, ast.Slice) and sl.lower is None and sl.upper is not None and norm(sl.upper) == "len(self.binary)" and norm(A.inline_locals(fn.node, s.value)) in ("memoryview(self.binary)", "self.binary"):
-            ok = True
-    chk.decide(ok, "C16.export.own-binary", fn.qual, "own binary is written at [0 : len(binary)]", "; ".join(norm(s) for s in own), f"{var}[:len(self.binary)] = self.binary", A.loc(IMG, fn.node))
-    # children at [offset : offset + len(child bytes)]
-    loops = [s for s in body if isinstance(s, ast.For) and norm(s.iter) == "self.sub_images"]
-    if len(loops) != 1:
-        raise AnalysisError("C16.export: child loop not found")
-    lp = loops[0]
-    child = lp.target.id
-    ok = False
-    detail = ""
-    for s in [x for x in ast.walk(lp) if isinstance(x, ast.Assign)]:
-        tgt = s.targets[0]
-        if isinstance(tgt, ast.Subscript):
-            dst = A.inline_locals(lp, tgt.value) if isinstance(tgt.value, ast.Name) else tgt.value
-            # dst is memoryview(ret)[lo:hi] (then [:] = data) or ret[lo:hi]
-            win = None
-            for n2 in ast.walk(dst if not (isinstance(tgt.slice, ast.Slice) and tgt.slice.lower is not None) else tgt):
-                if isinstance(n2, ast.Subscript) and isinstance(n2.slice, ast.Slice) and n2.slice.lower is not None and n2.slice.upper is not None:
-                    win = n2
-            if win is None:
-                continue
-            lo = norm(win.slice.lower)
-            hi = norm(A.inline_locals(lp, win.slice.upper))
-            val = norm(A.inline_locals(lp, s.value))
-            detail = f"[{lo} : {hi}] = {val}"
-            base_ok = var in norm(win.value)
-            if lo == f"{child}.offset" and hi in (f"{child}.offset + len({child}.export())", f"len({child}.export()) + {child}.offset") and f"{child}.export()" in val and base_ok:
-                ok = True
-    chk.decide(ok, "C16.export.child-window", fn.qual, f"each child's exported bytes are written at {detail}", f"child window {detail}", f"[{child}.offset : {child}.offset + len({child}.export())] = {child}.export()", A.loc(IMG, lp))
-    # result = align_block(buffer, alignment, pattern): padding only extends the end
-    last = body[-1]
-    ok = isinstance(last, ast.Return) and isinstance(last.value, ast.Call) and A.call_name(last.value) == "align_block" and [norm(a) for a in last.value.args] == [var, "self.alignment", "self.pattern"]
-    chk.decide(ok, "C16.export.align", fn.qual, "result is align_block(buffer, self.alignment, self.pattern) (append-only, see C20)", norm(last)[:100], f"return align_block({var}, self.alignment, self.pattern)", A.loc(IMG, last))
-    # order: pattern fill, own binary, children (children overwrite)
-    idx = {"buf": min(s.lineno for s in bufs), "own": min((s.lineno for s in own), default=0), "kids": lp.lineno}
-    chk.decide(idx["buf"] < idx["own"] < idx["kids"], "C16.export.order", fn.qual, "fill, then own binary, then children", f"{idx}", "buffer < own binary < children", A.loc(IMG, fn.node))
+
+    def cv(c: ast.Call, ev):
+        f = norm(c.func)
+        if isinstance(c.func, ast.Attribute) and c.func.attr == "export" and not c.args:
+            o = ev.ev(c.func.value)
+            if isinstance(o, Obj) and "_bytes" in o.__dict__:
+                return o.__dict__["_bytes"]
+        if isinstance(c.func, ast.Attribute) and c.func.attr == "get_block" and len(c.args) == 1:
+            o = ev.ev(c.func.value)
+            if isinstance(o, Obj) and "_pat" in o.__dict__:
+                return b"P" * ev.ev(c.args[0])
+        if f == "align_block" and c.args:
+            d = ev.ev(c.args[0])
+            d = d.tobytes() if isinstance(d, ordereval.View) else bytes(d)
+            al = ev.ev(A.arg_of(c, 1, "alignment")) if A.arg_of(c, 1, "alignment") is not None else 4
+            return d + b"A" * ((-len(d)) % max(al, 1))
+        return ordereval.NOT_MODELLED
+    cases = []
+    for pat in (None, Obj(_pat=True)):
+        for binary in (None, b"", b"OWNBIN"):
+            for kids in ((), ((0, b"k0k0"),), ((2, b"aaaa"), (10, b"bb")), ((8, b"cccc"), (10, b"dddd")), ((0, b""),)):
+                for extra in (0, 5):
+                    need = max([len(binary or b"")] + [o + len(d) for o, d in kids])
+                    cases.append((pat, binary, kids, need + extra, 8))
+    probs, n = [], 0
+    for pat, binary, kids, total, al in cases:
+        me = Obj(binary=binary, pattern=pat, alignment=al, len=total, sub_images=tuple(Obj(offset=o, _bytes=d, len=len(d)) for o, d in kids))
+        try:
+            out = ordereval.Evaluator({"self": me}, ctx.fold_sym(fn), opaque_return=False, call_value=cv).run(A.body_of(fn.node))
+        except ordereval.Unsupported as ex:
+            raise AnalysisError(f"C16.export: BinaryImage.export left the fragment: {ex}")
+        n += 1
+        if binary and total == len(binary) and not kids:
+            want = binary
+        else:
+            buf = bytearray((b"P" if pat is not None else b"\x00") * total)
+            if binary:
+                buf[:len(binary)] = binary
+            for o, d in kids:
+                buf[o:o + len(d)] = d
+            want = bytes(buf) + b"A" * ((-total) % al)
+        got = out.value.tobytes() if isinstance(out.value, ordereval.View) else bytes(out.value) if isinstance(out.value, (bytes, bytearray)) else None
+        if out.kind != "return" or got != want:
+            probs.append(f"pattern {'set' if pat is not None else 'none'}, binary {binary!r}, children {[(o, len(d)) for o, d in kids]}, length {total}: {out.kind} {got!r}, expected {want!r}")
+    chk.exhaustive_rules.add("C16.export")
+    chk.decide(not probs, "C16.export", fn.qual, f"pattern (or zero) fill of len(self) bytes, own binary at [0 : len(binary)], each child's exported bytes at [offset : offset + len], children in order (later ones overwrite), then align_block(buffer, alignment, pattern); the raw binary is returned only when it already is the whole image ({n} models)",
+               "; ".join(probs[:2]), "", A.loc(IMG, fn.node))
 
 
 def rule_structure(ctx) -> None:
@@ -251,6 +242,66 @@ def rule_formats(ctx) -> None:
     chk.decide(bool(uo), "C16.formats.load", ld.qual + " offsets", "update_offsets() normalises the base address", "", "", A.loc(IMG, ld.node))
 
 
+MISC = "spsdk/utils/misc.py"
+
+
+def rule_pattern(ctx) -> None:
+    """The fill pattern itself: get_block evaluated on models of every pattern kind and sizes around the 256-byte period, and the
+    presence protocol (`if image.pattern:` means "a pattern object is set", so the class must not define its own truth value)."""
+    chk = ctx.chk
+    gb = ctx.own(MISC, "BinaryPattern", "get_block")
+
+    def cv(c: ast.Call, ev):
+        f = norm(c.func)
+        if f == "random_bytes" and len(c.args) == 1:
+            return b"R" * ev.ev(c.args[0])
+        if f == "value_to_bytes" and c.args:
+            v = ev.ev(c.args[0])
+            if isinstance(v, str) and v.startswith("0x"):
+                return bytes.fromhex(v[2:])
+        return ordereval.NOT_MODELLED
+    probs, n = [], 0
+    for pat in ("zeros", "ones", "rand", "inc", "0xA5", "0x112233"):
+        for size in (0, 1, 2, 3, 255, 256, 257, 600):
+            try:
+                out = ordereval.Evaluator({"self": Obj(_pattern=pat), "size": size}, ctx.fold_sym(gb), opaque_return=False, call_value=cv).run(A.body_of(gb.node))
+            except ordereval.Unsupported as ex:
+                raise AnalysisError(f"C16.pattern: BinaryPattern.get_block left the fragment: {ex}")
+            n += 1
+            if pat == "zeros":
+                want = bytes(size)
+            elif pat == "ones":
+                want = b"\xff" * size
+            elif pat == "rand":
+                want = b"R" * size
+            elif pat == "inc":
+                want = bytes(i & 0xFF for i in range(size))
+            else:
+                unit = bytes.fromhex(pat[2:])
+                want = (unit * (size // len(unit) + 1))[:size]
+            got = bytes(out.value) if out.kind == "return" and isinstance(out.value, (bytes, bytearray)) else None
+            if got != want:
+                bad_at = next((i for i in range(min(len(got), len(want))) if got[i] != want[i]), min(len(got), len(want))) if got is not None else None
+                probs.append(f"pattern {pat!r}, {size} bytes: {'differs from offset ' + str(bad_at) + ' (length ' + str(len(got)) + ')' if got is not None else out.kind}")
+    chk.exhaustive_rules.add("C16.pattern")
+    chk.decide(not probs, "C16.pattern", gb.qual, f"zeros / ones / random / incrementing (i & 0xFF) / repeated value, exactly `size` bytes ({n} models incl. sizes around the 256-byte period)", "; ".join(probs[:3]), "", A.loc(MISC, gb.node))
+    # presence protocol
+    k = ctx.cls(MISC, "BinaryPattern")
+    own_truth = [m for kk in ctx.prog.mro(k) for m in ("__bool__", "__len__") if kk.method(m) is not None]
+    sites = []
+    for rp in (IMG, MISC):
+        for nd in ast.walk(ctx.m(rp).tree):
+            tests = []
+            if isinstance(nd, (ast.If, ast.IfExp, ast.While)):
+                tests.append(nd.test)
+            for t in tests:
+                for lit, _pol in A.literals(t):
+                    if lit.endswith(".pattern") or lit in ("pattern", "padding"):
+                        sites.append(f"{rp}:{nd.lineno} `{lit}`")
+    chk.decide(not own_truth and len(sites) >= 2, "C16.pattern", f"{MISC}::BinaryPattern presence", f"a pattern object is always true: {len(sites)} site(s) test `pattern` by truthiness to mean 'a pattern is set'",
+               f"BinaryPattern defines {own_truth}; sites {sites[:4]}", "no __bool__/__len__ on BinaryPattern", A.loc(MISC, k.node))
+
+
 def run(ctx) -> None:
     ctx.chk.explain("C16: validate() and __len__ are evaluated by the order-type evaluator on small object graphs (parent with up to two children: every order type of "
                     "offsets/lengths) against interval-intersection and aligned-maximum references; export() windows, layer order and the append-only alignment are decided "
@@ -260,6 +311,7 @@ def run(ctx) -> None:
     ctx.rule(rule_export)
     ctx.rule(rule_structure)
     ctx.rule(rule_formats)
+    ctx.rule(rule_pattern)
     ctx.chk.assumptions = ["bincopy's add_binary/as_ihex/as_srec keep addresses and bytes", "zero-length children are outside the validate reference (degenerate intervals)",
                            "not decided: byte contents of patterns, bincopy round trip"]
 
